@@ -91,6 +91,11 @@ CLAIMED = {
             "the open path is integrity-checked first (manifest: known finding); pre-verification parsers have no unreasoned panic source; "
             "open creates a fresh manifest only when Storage::exists says there is none",
             "5/C17"),
+    "C18": ("guard dominance on the group order, iterator identity of representative and inner hits, comparator argument order, must-order of the window operations",
+            "the grouping skeleton of collapse_hits: a value enters the order once (contains_key miss) and its group is removed when "
+            "emitted; the group is sorted by (a.key, b.key), the representative is the first of that sorted list and the inner hits "
+            "are the rest of the same iterator; a differing inner sort goes through resort_hits with the inner plan and an (a, b) "
+            "comparison; `from` is applied before `size`. Which documents share a value and how they rank is NOT decided", "5/C18"),
     "C19": ("container-aware value flow of hit indices from the window enumeration, provenance of the re-sort range, per-arm operation table of the score modes",
             "four clauses: every index used to modify or drop a hit is an enumeration of hits.iter().take(window) with window "
             "bounded by window_size; the re-sorted prefix is that window minus the dropped hits (never a length taken after a "
@@ -139,7 +144,6 @@ CLAIMED = {
 }
 
 NA = {
-    "C18": "group representatives and inner-hit windows are ordering properties of runtime hit lists",
     "C27": "quantifies over orderings of browser tasks / IndexedDB completions and the module is cfg(target_arch=\"wasm32\"): no wasm32 target is installed, so the code cannot be type-checked here",
     "C29": "similarity values, blending and nearest-neighbour exactness are numerical / algorithmic; the feature is outside the pinned build",
 }
